@@ -1,14 +1,15 @@
-// Correspondence harness for dcl_data_structures (sliding window).
+// Correspondence harness for dcl_data_structures (deep_causality and ultragraph).
 // stdin : one case per line: <family> <int> ...
 // stdout: one line per case: <int> ...   ("PANIC" if the implementation panicked)
 use std::io::{self, BufRead, Write};
 use std::panic;
 
-mod window;
+mod adjustable;
+
 
 fn run_case(fam: &str, args: &[i128]) -> Vec<i128> {
     match fam {
-        f if f.starts_with("window_") => window::run(&f[7..], args),
+        "adjustable" => adjustable::run(args),
         _ => panic!("unknown family {fam}"),
     }
 }
